@@ -196,6 +196,23 @@ def isSubclassOf (sm : SymMap) (recordId other : Nat) : Bool :=
 /-- `Type::can_be_casted_to(&symbol_map, other)` -/
 def canBeCastedTo (sm : SymMap) (a b : Ty) : Bool := Ty.canBeCastedTo sm.isSubclassOf a b
 
+/-- `Record::common_class`: the first class among the ancestors of `recordId` that `other` is, or derives from
+(parents first, then depth-first through the parents; explicit fuel) -/
+def commonClassGo (sm : SymMap) (other : Nat) : Nat → Nat → Option Nat
+  | 0, _ => none
+  | fuel + 1, recordId =>
+    let r := sm.record recordId
+    match r.parentList.toList.find? (fun p => p == other || sm.isSubclassOf other p) with
+    | some p => some p
+    | none => r.parentList.toList.findSome? fun p => commonClassGo sm other fuel p
+
+def commonClass (sm : SymMap) (recordId other : Nat) : Option Nat :=
+  commonClassGo sm other sm.fieldFuel recordId
+
+/-- `Type::common_typ(&symbol_map, other)` -/
+def commonTyp (sm : SymMap) (a b : Ty) : Option Ty :=
+  Ty.commonTyp sm.isSubclassOf sm.commonClass (fun id => (sm.record id).name) a b
+
 /-- `Type::find_field` -/
 def typFindField (sm : SymMap) (t : Ty) (name : String) : Option Nat :=
   match t with
